@@ -14,7 +14,8 @@ import (
 
 // SchedSpec is the JSON form of a delivery schedule strategy.
 type SchedSpec struct {
-	Kind    string // fifo | lifo | starve | prestart | dupall | choices
+	Kind    string // fifo | lifo | starve | prestart | dupall | choices | hold
+	Hold    []int  `json:",omitempty"` // hold: creation numbers of the deliveries held back until nothing else is deliverable
 	P       int    // focus party for starve / prestart
 	Choices []int  `json:",omitempty"`
 	DupPct  int    `json:",omitempty"`
@@ -32,12 +33,16 @@ func genSched(t *rapid.T, nNodes int, kinds []string) SchedSpec {
 			s.DupPct = rapid.IntRange(5, 40).Draw(t, "dupPct")
 		}
 	}
+	if s.Kind == "hold" {
+		// a session of n parties creates roughly rounds*n*(n-1) deliveries; most of the draws fall inside a run
+		s.Hold = rapid.SliceOfNDistinct(rapid.IntRange(0, 12*nNodes*(nNodes-1)), 1, 3, rapid.ID[int]).Draw(t, "hold")
+	}
 	return s
 }
 
-var schedNoDup = []string{"fifo", "lifo", "starve", "prestart", "choices", "choices"}
-var schedAll = []string{"fifo", "lifo", "starve", "prestart", "dupall", "choices", "choices", "choices-dup"}
-var schedNoPre = []string{"fifo", "lifo", "starve", "choices", "choices"}
+var schedNoDup = []string{"fifo", "lifo", "starve", "prestart", "hold", "hold", "choices", "choices"}
+var schedAll = []string{"fifo", "lifo", "starve", "prestart", "dupall", "hold", "hold", "choices", "choices", "choices-dup"}
+var schedNoPre = []string{"fifo", "lifo", "starve", "hold", "hold", "choices", "choices"}
 
 func (s SchedSpec) Make() sim.Scheduler {
 	switch s.Kind {
@@ -49,6 +54,8 @@ func (s SchedSpec) Make() sim.Scheduler {
 		return sim.PreStart{P: s.P}
 	case "dupall":
 		return &sim.DupAll{}
+	case "hold":
+		return &sim.HoldSome{IDs: s.Hold}
 	case "choices", "choices-dup":
 		return &sim.Choices{List: s.Choices, DupPct: s.DupPct}
 	}
